@@ -66,7 +66,8 @@ class LexLoop(Exception):
     pass
 
 
-def lex(table: dict[str, list[dict[str, Any]]], flags: int, text: str, stack: tuple[str, ...] = ("root",), max_steps: int = 200000) -> list[tuple[int, TokType, str]]:
+def lex(table: dict[str, list[dict[str, Any]]], flags: int, text: str, stack: tuple[str, ...] = ("root",), max_steps: int = 200000,
+        call_cb: Any = None) -> list[tuple[int, TokType, str]]:
     """The loop of RegexLexer.get_tokens_unprocessed.  `table[state]` is a list of rules {"rx": compiled, "emit": [(group, type)], "new": ...}."""
     out: list[tuple[int, TokType, str]] = []
     pos = 0
@@ -80,6 +81,9 @@ def lex(table: dict[str, list[dict[str, Any]]], flags: int, text: str, stack: tu
         for r in table[statestack[-1]]:
             m = r["rx"].match(text, pos)
             if m:
+                if r.get("callback") is not None:
+                    # `yield from action(self, m)`: a callable action; the loop continues at m.end() whatever the callback emitted
+                    out.extend(call_cb(r["callback"], m))
                 for grp, tt in r["emit"]:
                     if grp == 0:
                         out.append((pos, tt, m.group()))
@@ -141,6 +145,9 @@ ACCEPTED_SOURCES: list[tuple[str, str]] = [
     ("non-ASCII text", "def 0 {\n    say('Pokémon – “quoted” 日本語 \U0001F600', \"ß\\n\");\n}\n"),
     ("tabs and carriage returns", "def 0 {\r\n\tfoo(1);\r\n}\r\n"),
     ("line joining", "def 0 {\n    foo(1, \\\n        2);\n}\n"),
+    ("line comments with trailing blanks", "def 0 { // after  \t\n    a(); //\t\n    //   \n    b(); // x \x0c\n}\n// end \xa0\n"),
+    ("radix prefixes in both cases", "def 0 {\n    n(0X1F, 0B11, 0O17, 0xaB, 0b0, 0o7, 0XFF, -0X1f, 000);\n}\n"),
+    ("comments inside statements", "def 0 {\n    p(Position<'m0', 10, /* y */ 20>, /* a */ 1, // b\n      2);\n    if /* c */ ($A /* d */ == 1) { }\n}\n"),
     ("operators", "def 0 {\n    $A -= 1; $A *= 2; $A /= 3; $A = $B;\n    if ($A >= 1 || $A <= 2 || $A != 3 || $A & 4 || $A ^ 5 || $A &<< 6 || $A > 7) { }\n}\n"),
 ]
 
